@@ -10,7 +10,15 @@
 
 use std::io;
 use std::io::Write;
+#[cfg(cadence_verif)]
+use cadence_dsim::net::UdpSocket;
+#[cfg(cadence_verif)]
+use std::net::{SocketAddr, ToSocketAddrs};
+#[cfg(not(cadence_verif))]
 use std::net::{SocketAddr, ToSocketAddrs, UdpSocket};
+#[cfg(cadence_verif)]
+use cadence_dsim::sync::Mutex;
+#[cfg(not(cadence_verif))]
 use std::sync::Mutex;
 
 use crate::io::MultiLineWriter;
